@@ -363,6 +363,23 @@ def run(ck, facts):
                 body_empty = re.search(r"\(\s*this\s*:\s*Box<\s*#\w+\s*(#\w+\s*)?>\s*\)\s*\{\s*\}", src) is not None
                 ck.expect(body_empty, "R4", "macro::gen_bridge/destroy-template", "fn #destroy_ident(this: Box<#T>) {}", "the destroy template is no longer `(this: Box<T>) {}`: " + src[:200], C.loc(g, n.get("ln")))
     ck.expect(found, "R4", "macro::gen_bridge/destroy-template-present", "", "no destroy template with a Box<T> parameter found in gen_bridge", C.loc(g))
+    # no template of the macro suppresses a destructor: the generated wrappers own what they receive (a trait object's `Drop` runs the foreign vtable's
+    # destructor exactly when the Rust value is dropped), so a `ManuallyDrop` / `mem::forget` / `Box::leak` in generated code leaks a foreign object
+    suppress = re.compile(r"ManuallyDrop|mem\s*::\s*forget|Box\s*::\s*leak|\bforget\s*\(")
+    assert suppress.search("let this = core::mem::ManuallyDrop::new(self);")     # the rule's own positive example (expected count on the tree: 0)
+    ntpl = 0
+    for f_ in facts.macro.fn_list:
+        if "hir" not in f_:
+            continue
+        for n in C.walk(C.fn_body(f_)):
+            if n.get("k") == "macro" and n.get("name") in ("parse_quote", "quote"):
+                ntpl += 1
+                hit = suppress.search(n.get("src", "") or "")
+                if hit:
+                    ck.bad("R4", "macro::%s/template-suppresses-a-destructor" % C.norm_path(f_["path"]).split("::")[-1],
+                           "a template of the bridge macro contains `%s`: the generated code keeps a received value from being dropped, so the destructor of the foreign object "
+                           "behind it (vtable destructor, Box) never runs" % hit.group(0), C.loc(f_, n.get("ln")))
+    ck.expect(ntpl >= 20, "R4", "macro/templates-scanned-for-destructor-suppression", "%d templates" % ntpl, "only %d quote!/parse_quote! templates found in the macro (20+ counted)" % ntpl, None)
 
     # ---- R3 (cont.) generated corpus: the wrapper closure the macro builds around a callback parameter captures the whole DiplomatCallback by value
     #      (not its `data` / `run_callback` fields): the foreign destructor then runs when the closure is dropped, not when the extern fn returns
